@@ -11,6 +11,7 @@ mod fmt;
 mod gen;
 mod nf;
 mod run;
+mod semi;
 mod stmts;
 mod tree;
 
@@ -30,6 +31,7 @@ fn main() {
         "fmt" => fmt::main(&args[2..]),
         "gen" => gen::main(&args[2..]),
         "run" => run::main(&args[2..]),
+        "semi" => semi::main(&args[2..]),
         other => {
             eprintln!("svh: unknown subcommand {}", other);
             std::process::exit(2);
